@@ -145,6 +145,12 @@ func opsWorker(name string, res *core.Result, r *core.RNG, tier, out string) err
 			return err
 		}
 	}
+	if name == "hostile" && core.Shard == 3%core.Shards {
+		// announcements of authorized servers while devices sync: both endpoints keep answering
+		if err := schedListVsSync(res, r.Fork()); err != nil {
+			return err
+		}
+	}
 	if name == "hostile" && core.Shard == 1 {
 		// conflicting authorizations while the device's datagrams are in flight (a crash here kills this worker)
 		if err := schedBanInFlight(res, r.Fork()); err != nil {
